@@ -198,6 +198,9 @@ def run(ctx):
                 for r in (1, 6):
                     for fd in (False, True):
                         cli.append((seed, w, l, r, rb, lb, tb, lt, fd))
+    for r in (999999, 10 ** 6, 1234567, 1234568, 10 ** 17, 2 ** 64):       # maximum rewards with many digits
+        for fd in (False, True):
+            cli.append((3, 2, 2, r, 10, 10, 10, 30, fd))
     cli = sorted(set(cli))
     manual = []
     mbase = (1, 1, 2, 10, 10, 10, False)
@@ -253,7 +256,7 @@ def run(ctx):
                                           "observed": name, "expected": "distinct names",
                                           "explanation": "parameter sets %r and %r share the file %s" % (distinct[0], distinct[1], name)})
     if tot["runs"] != len(cli) + len(manual) + 3 * len(pairs) + len(spell) and not res.get("skipped_shards") and not tot["violations"]:
-        raise par.HarnessError("C17: %d runs executed, %d planned" % (tot["runs"], len(cli) + len(manual) + 3 * len(pairs) + len(spell)))
+        raise par.GuardError("C17: %d runs executed, %d planned" % (tot["runs"], len(cli) + len(manual) + 3 * len(pairs) + len(spell)))
     cov = {"states": tot["runs"] + 198, "transitions": tot["runs"] + 198, "traces_validated_against_impl": tot["runs"] + 198,
            "evaluations": tot["runs"] + 198, "distinct_nontrivial": tot["runs"], "cli_runs": len(cli), "manual_runs": len(manual), "ordered_call_pairs_in_one_process": len(pairs), "runs_with_other_doubles_denoting_k_over_100": len(spell),
            "prob_to_str_calls": 198, "distinct_names": len(tot["names"]), "rule": RULE, "exhaustive": not res.get("skipped_shards"),
